@@ -25,6 +25,15 @@
 (* Variant "wrapperMemo" (a failing control) keeps the wrapper per library *)
 (* in the process and so hands out a stale table.                          *)
 (*                                                                         *)
+(* LoadSv(p): the SasView route, sasview_model.load_custom_model + first    *)
+(* evaluation.  It shares the module cache with Load, keeps a registry of   *)
+(* model classes that is replaced only when the module object changed, and  *)
+(* a class keeps the kernel it compiled at its first evaluation.  As        *)
+(* written (SvMode = "asWritten") a template edit alone does not change the *)
+(* module, so the class - and its kernel - is reused: Coherent is violated  *)
+(* (Cache_sv.cfg must fail; known finding).  SvMode = "ideal" rebuilds on   *)
+(* every load and satisfies Coherent.                                       *)
+(*                                                                         *)
 (* The hash is modelled as injective in the generated source (CRC          *)
 (* collisions are outside the property).  Variant selects the current      *)
 (* design ("ok") or one of several deliberately wrong designs used as      *)
@@ -33,6 +42,8 @@
 EXTENDS Naturals, FiniteSets, Sequences, TLC
 
 CONSTANTS Procs, Versions, Bits, MaxSteps,
+          WithSv,   \* the SasView load route takes part
+          SvMode,   \* "asWritten" | "ideal"
           Variant   \* "ok" | "keyIgnoresInc" | "keyIgnoresBits" | "tmplNeverRefreshed" | "wrapperMemo" (failing controls) | "noDepends" (equivalent: included C is read fresh)
 
 Files == {"py", "inc", "tmpl"}
@@ -45,16 +56,19 @@ VARIABLES text,     \* [Files -> Versions]
           modc,     \* [Procs -> [v, ts] | "none"]  module cache (snapshot of py text, timestamp)
           tmplc,    \* [Procs -> [v, mt] | "none"]  template cache
           last,     \* [Procs -> "none" | [src, bits, info]]  what the last Load of p evaluates: library and table
+          svc,      \* [Procs -> [seen, built]]  SasView route: module last seen by load_custom_model, and what the
+                    \* registered class evaluates (its kernel is compiled once) or NoLast
           wrapc,    \* [Procs -> set of [k, info]]  wrappers kept per library (variant wrapperMemo only)
           just,     \* "none" | [p, b]: the step just taken was Load(p, b)
           steps
-vars == <<text, mtime, clock, dll, means, modc, tmplc, last, wrapc, just, steps>>
+vars == <<text, mtime, clock, dll, means, modc, tmplc, last, svc, wrapc, just, steps>>
 
 \* sentinels ("nothing cached"): version 0 does not exist
 NoMod == [v |-> 0, ts |-> 0]
 NoTmpl == [v |-> 0, mt |-> 0]
 NoLast == [src |-> [py |-> 0, inc |-> 0, tmpl |-> 0], bits |-> 0, info |-> 0]
 NoJust == [p |-> "none", b |-> 0]
+NoSv == [seen |-> NoMod, built |-> NoLast]
 Triple(py, inc, tmpl) == [py |-> py, inc |-> inc, tmpl |-> tmpl]
 \* the C generated from version v of the definition: 1 and 2 differ only in a parameter default
 PyC(v) == IF v = 2 THEN 1 ELSE v
@@ -72,6 +86,7 @@ Init ==
     /\ tmplc = [p \in Procs |-> NoTmpl]
     /\ last = [p \in Procs |-> NoLast]
     /\ wrapc = [p \in Procs |-> {}]
+    /\ svc = [p \in Procs |-> NoSv]
     /\ just = NoJust
     /\ steps = 0
 
@@ -83,7 +98,7 @@ Edit(f, v) ==
     /\ clock' = clock + 1
     /\ steps' = steps + 1
     /\ just' = NoJust
-    /\ UNCHANGED <<dll, means, modc, tmplc, last, wrapc>>
+    /\ UNCHANGED <<dll, means, modc, tmplc, last, wrapc, svc>>
 
 \* custom.need_reload: any dependency newer than the cached timestamp
 NeedReload(p) ==
@@ -120,7 +135,30 @@ Load(p, b) ==
                             ELSE wrapc
     /\ just' = [p |-> p, b |-> b]
     /\ steps' = steps + 1
-    /\ UNCHANGED <<text, mtime, clock>>
+    /\ UNCHANGED <<text, mtime, clock, svc>>
+
+\* sasview_model.load_custom_model(path)() evaluated once (double precision)
+LoadSv(p) ==
+    /\ WithSv /\ steps < MaxSteps
+    /\ LET mod == ModAfter(p)
+           reloaded == svc[p].seen # mod
+           kept == IF reloaded \/ SvMode = "ideal" THEN NoLast ELSE svc[p].built
+           src == SourceOf(p)
+           k == KeyOf(src, 64)
+           lib == IF k \in dll THEN means[k] ELSE [src |-> src, bits |-> 64]
+           res == IF kept = NoLast THEN [src |-> lib.src, bits |-> lib.bits, info |-> mod.v] ELSE kept
+       IN /\ modc' = [modc EXCEPT ![p] = mod]
+          /\ IF kept = NoLast
+             THEN /\ tmplc' = [tmplc EXCEPT ![p] = TmplAfter(p)]
+                  /\ IF k \in dll THEN UNCHANGED <<dll, means>>
+                     ELSE /\ dll' = dll \cup {k}
+                          /\ means' = [x \in DOMAIN means \cup {k} |-> IF x = k THEN [src |-> src, bits |-> 64] ELSE means[x]]
+             ELSE UNCHANGED <<tmplc, dll, means>>
+          /\ svc' = [svc EXCEPT ![p] = [seen |-> mod, built |-> res]]
+          /\ last' = [last EXCEPT ![p] = res]
+    /\ just' = [p |-> p, b |-> 64]
+    /\ steps' = steps + 1
+    /\ UNCHANGED <<text, mtime, clock, wrapc>>
 
 NewProcess(p) ==
     /\ steps < MaxSteps
@@ -129,6 +167,7 @@ NewProcess(p) ==
     /\ tmplc' = [tmplc EXCEPT ![p] = NoTmpl]
     /\ last' = [last EXCEPT ![p] = NoLast]
     /\ wrapc' = [wrapc EXCEPT ![p] = {}]
+    /\ svc' = [svc EXCEPT ![p] = NoSv]
     /\ just' = NoJust
     /\ steps' = steps + 1
     /\ UNCHANGED <<text, mtime, clock, dll, means>>
@@ -136,6 +175,7 @@ NewProcess(p) ==
 Next == \/ \E f \in Files, v \in Versions : Edit(f, v)
         \/ \E p \in Procs, b \in Bits : Load(p, b)
         \/ \E p \in Procs : NewProcess(p)
+        \/ \E p \in Procs : LoadSv(p)
 Spec == Init /\ [][Next]_vars
 
 \* ---- properties (C17)
